@@ -101,11 +101,18 @@ pub fn run_history(cfg: &RunCfg, h: &History) -> (Outcome, RunInfo) {
     let mut deleted_recently = false;
     let mut txn_has_update_or_delete = false;
 
+    // schema-changing statements whose damage shows up at later statements: once executed,
+    // their tag is part of every later signature of the history ("sticky")
+    const STICKY: [&str; 4] = ["rename_indexed_column", "drop_column_with_rows", "truncate_table_with_rows", "add_column_to_table_with_rows"];
+    let mut sticky: Vec<&'static str> = Vec::new();
+
     macro_rules! fail {
         ($facet:expr, $r:expr, $detail:expr) => {{
+            let mut all_tags: Vec<&'static str> = $r.tags.clone();
+            all_tags.extend(sticky.iter().copied());
             let tail: Vec<String> = log.iter().rev().take(12).rev().cloned().map(|s| if s.len() > 160 { format!("{}…", &s[..160]) } else { s }).collect();
             out.set_fail(
-                format!("{}|{}|{}|{}", cfg.prop, $facet, $r.kind, tagstr(&$r.tags)),
+                format!("{}|{}|{}|{}", cfg.prop, $facet, $r.kind, tagstr(&all_tags)),
                 format!("{}\n  last statements:\n    {}", $detail, tail.join("\n    ")),
             );
             return (out, info);
@@ -123,6 +130,9 @@ pub fn run_history(cfg: &RunCfg, h: &History) -> (Outcome, RunInfo) {
         }
         for t in &r.tags {
             info.tags_seen.insert(t);
+            if STICKY.contains(t) && !sticky.contains(t) {
+                sticky.push(t);
+            }
         }
         info.executed.push(r.kind);
         let is_dml = matches!(r.kind, "INSERT" | "UPDATE" | "DELETE" | "TRUNCATE");
@@ -152,7 +162,10 @@ pub fn run_history(cfg: &RunCfg, h: &History) -> (Outcome, RunInfo) {
             }
         } else {
             log.push(r.sql.clone());
-            db.exec(&r.sql)
+            match vcore::catch(|| db.exec(&r.sql)) {
+                Ok(e) => e,
+                Err(p) => fail!(format!("panic|{}", vcore::panic_signature(&p).replace("panic|", "")), r, format!("{} panicked at {}:{}: {}", short(&r.sql), p.file, p.line, p.message)),
+            }
         };
         if matches!(r.kind, "REOPEN" | "DROP_REOPEN" | "CHECKPOINT" | "PRAGMA_CHECKPOINT") && dml_since_open {
             info.lifecycle_after_dml = true;
@@ -165,7 +178,7 @@ pub fn run_history(cfg: &RunCfg, h: &History) -> (Outcome, RunInfo) {
             if r.kind == "DELETE" && r.rows_touched > 0 {
                 deleted_recently = true;
             }
-            if model.in_txn() && matches!(r.kind, "UPDATE" | "DELETE") && r.rows_touched > 0 {
+            if model.in_txn() && matches!(r.kind, "INSERT" | "UPDATE" | "DELETE") && r.rows_touched > 0 && matches!(exec, Exec::Ok { .. }) {
                 txn_has_update_or_delete = true;
             }
         }
@@ -222,7 +235,14 @@ pub fn run_history(cfg: &RunCfg, h: &History) -> (Outcome, RunInfo) {
         info.max_rows = info.max_rows.max(model.tables.iter().map(|t| t.rows.len()).max().unwrap_or(0));
 
         // ---- state oracles
-        let now: Option<Obs> = if need_obs || (cfg.oracles.model && !cfg.oracles.outcome_only) { Some(obs(&db, &model.tables, cfg.probes)) } else { None };
+        let now: Option<Obs> = if need_obs || (cfg.oracles.model && !cfg.oracles.outcome_only) {
+            match vcore::catch(|| obs(&db, &model.tables, cfg.probes)) {
+                Ok(o) => Some(o),
+                Err(p) => fail!(format!("panic_in_select|{}", vcore::panic_signature(&p).replace("panic|", "")), r, format!("a SELECT of the observation after {} panicked at {}:{}: {}", short(&r.sql), p.file, p.line, p.message)),
+            }
+        } else {
+            None
+        };
         if cfg.oracles.model && !cfg.oracles.outcome_only {
             let got = now.as_ref().unwrap();
             let exp = model_obs(&model.tables, Some(got));
